@@ -25,6 +25,25 @@ type bubbleResult struct {
 	Frozen   string
 }
 
+// bubbleDebug, when set by a scenario, describes what the simulated cluster has seen lately; the
+// watchdog appends it to a spin verdict (it must not block: the bubble is still running).
+var bubbleDebug func() string
+
+func debugTail() string {
+	f := bubbleDebug
+	if f == nil {
+		return ""
+	}
+	ch := make(chan string, 1)
+	go func() { ch <- f() }()
+	select {
+	case s := <-ch:
+		return "\nserver side, most recent first:\n" + s
+	case <-time.After(2 * time.Second):
+		return ""
+	}
+}
+
 // inBubble runs f inside a fresh synctest bubble (virtual time) and turns
 // synctest's deadlock panic into a value. f must not touch *rapid.T.
 func inBubble(t *testing.T, f func()) (res bubbleResult) {
@@ -94,7 +113,7 @@ func inBubble(t *testing.T, f func()) (res bubbleResult) {
 			return bubbleResult{Spin: fmt.Sprintf("after %v of real time a goroutine of the client is still running without blocking (hot loop in %s):\n%s", limit, best, g)}
 		}
 		return bubbleResult{Spin: fmt.Sprintf("after %v of real time the client is still busy (a retry loop that never ends: no back-off at all, or one that nothing - "+
-			"success, the caller's context, Close - ever terminates; client frames seen running in %d of %d samples: %v):\n%s", limit, samplesWithClient, samples, frames, g), Livelock: true}
+			"success, the caller's context, Close - ever terminates; client frames seen running in %d of %d samples: %v):\n%s%s", limit, samplesWithClient, samples, frames, g, debugTail()), Livelock: true}
 	case len(mutexed) > 0:
 		return bubbleResult{Frozen: "the bubble's clock is frozen by a goroutine parked on a mutex (harness limitation):\n" + mutexed[0]}
 	}
